@@ -11,6 +11,9 @@ for pid in props:
     c = CLAIMED.get(pid)
     if not c:
         continue
+    if "text" not in c:
+        import importlib
+        c["text"] = importlib.import_module(f"sa.rules.{pid.lower()}").EXPLANATION
     checks.append({
         "property_id": pid,
         "quick_cmd": f"./check {pid} --tier quick",
